@@ -837,6 +837,9 @@ class RZILTransformer(Transformer):
         a = items[0]
         b = items[2]
         name = f"op_{op_type.name}"
+        if op_type == BitOperationType.RSHIFT or op_type == BitOperationType.LSHIFT:
+            # The result of a shift has the promoted type of the left operand.
+            a = self.promotion_cast(a)
         if (a and b) and not (
             op_type == BitOperationType.RSHIFT or op_type == BitOperationType.LSHIFT
         ):
